@@ -32,7 +32,9 @@ RULE = ("Hypothesis draws non-DAQmx source files biased to fragmentation (C01 ge
         'defragment wrote.'
         ' Source lead-ins carry version numbers 4711 / 4712 / 4713 / 4714 / 0, the version argument may be omitted '
         '(documented default 4712), destinations may be pathlib.Path objects.'
-        ' Long string channels (4095 .. 10000 values) are included.')
+        ' Long string channels (4095 .. 10000 values) are included.'
+        ' Strings ending in NUL characters and multi-byte text occur in the sources (also in the long string channel, '
+        '1023 .. 10000 values).')
 ASSUMPTIONS = [
     "float-with-unit channels are compared as their float type (the writer API has no with-unit types)",
     "order of groups/channels in the copy is not asserted (the statement does not mention it)",
